@@ -313,8 +313,10 @@ class Ctx:
         ev = {"property_id": self.pid, "tier": self.tier, "seed": self.seed, "level": "proof",
               "coverage": cov, "assumptions": self.assumptions, "wall_s": round(time.time() - self.t0, 2),
               "violations": len(self.violations)}
-        os.makedirs(os.path.join(VERIF, "evidence"), exist_ok=True)
-        p = os.path.join(VERIF, "evidence", "%s.json" % self.pid)
+        # evidence under /verif/evidence describes /repo itself; experiments against another tree (VERIF_REPO) write elsewhere
+        evdir = os.path.join(VERIF, "evidence") if REPO == "/repo" else os.path.join(tempfile.gettempdir(), "sqverif-evidence-other-tree")
+        os.makedirs(evdir, exist_ok=True)
+        p = os.path.join(evdir, "%s.json" % self.pid)
         json.dump(ev, open(p + ".tmp", "w"), indent=1, default=str)
         os.replace(p + ".tmp", p)
 
